@@ -1,11 +1,204 @@
-(* C15 -- placeholder while the development is being built; replaced by the full statement file. *)
-From Coq Require Import ZArith List Bool.
-From LK Require Import Model.C15_steps Gen.C15_save Model.C15_fs Model.C15_codec Proofs.C15_crash.
-Import ListNotations.
+(* C15 -- Saved, pickled and converted objects load back equal; saves never mix contents.
+   Property theorems only; each is closed by `exact <lemma>` and followed by Print Assumptions.
 
-Theorem crash_outcomes : forall old ds perm k trunc,
+   Property text -> theorem:
+   * "A dataset save that is interrupted at any step leaves a directory that fails to load, loads as
+     exactly the dataset being saved, or - only if nothing had been removed yet - loads as exactly
+     the dataset previously stored there, never a mixture of the two."
+        -> crash_outcomes, never_mixture.  The effect list of DataContainer.save and the read list of
+           DataContainer.load are the GENERATED ones (Gen/C15_save.v): the statements are re-checked
+           against the source on every run.  Quantified over every old directory (any contents,
+           including junk and earlier partial saves, or no directory), every dataset, every order in
+           which rmtree deletes the entries, every crash point and truncation of the write in progress.
+           removal_is_needed: without the rmtree step the same statement is false (the witness is the
+           mixture the mutation test reproduces on the real code).
+   * "datasets through the native directory format ... yields an object observationally equal"
+        -> save_load_id (a completed save over anything loads as the schema saved and, for every class
+           the schema names, the table saved); pickling of datasets, attributes of every layout and the
+           equality of the public views are exercised by the harness (Arrow/Parquet are contracts).
+   * "item lists through pickling"               -> itemlist_pickle_id
+   * "item lists through ... data frames"        -> df_roundtrip, to_df_refuses_only_unknown
+   * "item lists through ... Arrow tables"       -> arrow_roundtrip (non-empty lists);
+                                                     arrow_empty_refuted: the statement FAILS for empty
+                                                     lists (finding arrow:empty-list)
+   * "collections through native Parquet files ... the same keys, list order, fields, ordering flag
+     and empty lists" (duplicate keys, lists that differ in which fields they carry)
+        -> collection_roundtrip; for an EMPTY list the ordering flag is not claimed: it comes back as
+           "the stored columns contain rank" (collection_empty_flag_refuted is the counterexample,
+           finding collection:empty-list-ordered-flag); a collection without lists leaves no file
+           (no_lists_no_file, finding collection:no-lists-no-file)
+   * "picklable generic key tuples"              -> key_reduce_id, key_rebuild_any
+   * "trained models and pipelines through pickling ... the same scores": exercised only (pickle is a
+     contract); see harness/props/c15.py extra().
+
+   Observational equality is spelled out by `observe` (length, ids(), numbers(), ordered, ranks(),
+   fields) and `fields_equiv` (the same field names, each bound to an array of the same dtype with
+   the same elements, bit for bit). *)
+From Coq Require Import ZArith List Bool String.
+From LK Require Import Model.C15_steps Gen.C15_save Model.C15_fs Model.C15_codec
+  Proofs.C15_crash Proofs.C15_codec Proofs.C15_arrow Proofs.C15_coll.
+Import ListNotations.
+Open Scope string_scope.
+Open Scope list_scope.
+
+(* ---- (a) interrupted saves ------------------------------------------------------------------- *)
+
+Theorem crash_outcomes : forall (old : fs) (ds : dataset) (perm : list fname) (k : nat) (trunc : bool),
   wf_dataset ds ->
   let s := save_crash old ds perm k trunc in
   load s = LFail \/ load s = canon ds \/ (load s = load old /\ untouched old s).
 Proof. exact crash_outcomes_l. Qed.
 Print Assumptions crash_outcomes.
+
+Theorem never_mixture : forall old ds perm k trunc sc ts,
+  wf_dataset ds ->
+  load (save_crash old ds perm k trunc) = LOk sc ts ->
+  LOk sc ts = canon ds \/ (LOk sc ts = load old /\ untouched old (save_crash old ds perm k trunc)).
+Proof. exact never_mixture_l. Qed.
+Print Assumptions never_mixture.
+
+Theorem save_load_id : forall old ds perm,
+  wf_dataset ds ->
+  load (save_done old ds perm) = canon ds /\
+  forall n, In n (s_names (d_schema ds)) ->
+    match canon ds with LOk s ts => s = d_schema ds /\ In (n, table_of ds n) ts | LFail => False end.
+Proof. intros old ds perm W. split; [exact (save_load_id_l old ds perm W)|exact (canon_tables ds)]. Qed.
+Print Assumptions save_load_id.
+
+Theorem removal_is_needed :
+  let steps := [SMkdir; SWriteSchema; SWriteTables; SWriteSummary] in
+  let old := run None (save_run ds_old [] steps None) in
+  let s := crash_state old (save_run ds_new [] steps old) 2 false in
+  load s = LOk (d_schema ds_new) [(0, 10%Z); (1, 11%Z)].
+Proof. exact no_removal_mixes. Qed.
+Print Assumptions removal_is_needed.
+
+(* ---- (b) codecs ------------------------------------------------------------------------------- *)
+
+Theorem itemlist_pickle_id : forall il,
+  exists il', pickle_rt il = Some il' /\ observe il' = observe il /\ il_vocab il' = None.
+Proof. exact pickle_id_l. Qed.
+Print Assumptions itemlist_pickle_id.
+
+Theorem df_roundtrip : forall il df,
+  wf_il il ->
+  (forall k, In k (map fst (il_fields il)) -> smem k user_cols = false) ->
+  to_df il = Some df ->
+  exists il', from_df df = Some il' /\ obs_equiv (observe il') (observe il) /\ il_vocab il' = None.
+Proof. exact df_roundtrip_l. Qed.
+Print Assumptions df_roundtrip.
+
+Theorem to_df_refuses_only_unknown : forall il,
+  wf_il il -> to_df il = None -> has_nums il = true /\ nums_strict il = None.
+Proof. exact to_df_none_l. Qed.
+Print Assumptions to_df_refuses_only_unknown.
+
+Theorem arrow_roundtrip : forall il numbers,
+  wf_il il -> il_len il <> 0 -> has_ids il = true ->
+  (numbers = true -> has_nums il = true -> exists n, nums_strict il = Some n) ->
+  exists t il',
+    to_arrow il true numbers = Some t /\ from_arrow t = Some il' /\
+    il_len il' = il_len il /\ v_ids il' = v_ids il /\
+    v_nums il' = (if numbers && has_nums il then v_nums il else None) /\
+    il_ordered il' = il_ordered il /\ v_ranks il' = v_ranks il /\
+    fields_equiv (il_fields il') (il_fields il) /\ il_vocab il' = None.
+Proof. exact arrow_roundtrip_l. Qed.
+Print Assumptions arrow_roundtrip.
+
+Theorem arrow_empty_refuted : forall il ids numbers, il_len il = 0 ->
+  match to_arrow il ids numbers with Some t => from_arrow t = None | None => True end.
+Proof. exact arrow_empty_refuted_l. Qed.
+Print Assumptions arrow_empty_refuted.
+
+Theorem collection_roundtrip : forall batch kf items c,
+  add_all (empty_coll kf) items = Some c -> items <> [] ->
+  (forall key il, In (key, il) items -> wf_il il /\ has_ids il = true) ->
+  exists t c',
+    save_parquet batch c = SFile t /\ load_parquet (SFile t) = Some c' /\
+    k_fields c' = kf /\ map fst (c_lists c') = map fst items /\
+    Forall2 (list_equiv (p_cols t)) (map snd items) (map snd (c_lists c')) /\
+    amem "rank" (p_cols t) = amem "rank" (c_schema c).
+Proof. exact collection_roundtrip_l. Qed.
+Print Assumptions collection_roundtrip.
+
+Theorem collection_empty_flag_refuted :
+  match coll_rt 5000 ["user_id"] [([1%Z], il_ord); ([2%Z], il_empty_unord)] with
+  | Some c => map (fun kl => il_ordered (snd kl)) (c_lists c) = [true; true]
+  | None => False
+  end.
+Proof. exact empty_flag_refuted_l. Qed.
+Print Assumptions collection_empty_flag_refuted.
+
+Theorem no_lists_no_file : forall batch kf, load_parquet (save_parquet batch (empty_coll kf)) = None.
+Proof. exact no_lists_no_file_l. Qed.
+Print Assumptions no_lists_no_file.
+
+Theorem key_reduce_id : forall c k, key_in_cache c k -> rebuild_key c (reduce_key k) = (k, c).
+Proof. exact key_reduce_id_l. Qed.
+Print Assumptions key_reduce_id.
+
+Theorem key_rebuild_any : forall c k,
+  let (k', c') := rebuild_key c (reduce_key k) in
+  key_names k' = key_names k /\ key_vals k' = key_vals k /\ key_in_cache c' k' /\
+  (cache_get (key_names k) c <> None -> c' = c).
+Proof. exact key_rebuild_any_l. Qed.
+Print Assumptions key_rebuild_any.
+
+(* ---- non-vacuity ------------------------------------------------------------------------------- *)
+
+(* an old directory that loads, a different well-formed dataset, and crash points realising each of
+   the three outcomes (during the removal: old; after it: fail; completed: new) *)
+Example c15_crash_nonvacuous :
+  let old := save_done None ds_old [] in
+  let perm := [NSummary; NTable 1; NSchema; NTable 0] in
+  wf_dataset ds_new /\ load old = canon ds_old /\ canon ds_old <> canon ds_new /\
+  load (save_crash old ds_new perm 1 false) = canon ds_old /\
+  load (save_crash old ds_new perm 2 false) = LFail /\
+  load (save_crash old ds_new perm 8 true) = LFail /\
+  load (save_crash old ds_new perm 10 false) = canon ds_new.
+Proof.
+  cbv zeta. split.
+  { split; [repeat constructor; simpl; intuition discriminate|].
+    simpl. intros n [H|[H|[]]]; subst; simpl; tauto. }
+  repeat split; try (vm_compute; reflexivity). vm_compute. discriminate.
+Qed.
+
+(* a well-formed ordered list with a score and an integer field, and an unordered one with another
+   field: the hypotheses of the codec theorems hold, and the collection of both can be built *)
+Definition ex_a : ilist := mkIL 2 6 (Some [7%Z; 9%Z]) None None true None
+  [("score", mkCol TF32 [1065353216%Z; 2143289344%Z]); ("count", mkCol 5 [3%Z; (-1)%Z])].
+Definition ex_b : ilist := mkIL 1 6 (Some [4%Z]) None None false None [("rating", mkCol 2 [5%Z])].
+
+Lemma ex_a_wf : wf_il ex_a.
+Proof.
+  constructor; simpl.
+  - intros i H. inversion H. reflexivity.
+  - intros n H. discriminate.
+  - left. discriminate.
+  - intros r H. discriminate.
+  - intros k c [H|[H|[]]]; inversion H; reflexivity.
+  - repeat constructor; simpl; intuition discriminate.
+  - intros k [H|[H|[]]]; subst; reflexivity.
+  - intros c H. inversion H. reflexivity.
+Qed.
+Lemma ex_b_wf : wf_il ex_b.
+Proof.
+  constructor; simpl.
+  - intros i H. inversion H. reflexivity.
+  - intros n H. discriminate.
+  - left. discriminate.
+  - intros r H. discriminate.
+  - intros k c [H|[]]; inversion H; reflexivity.
+  - repeat constructor; simpl; intuition.
+  - intros k [H|[]]; subst; reflexivity.
+  - intros c H. discriminate.
+Qed.
+
+Example c15_codec_nonvacuous :
+  wf_il ex_a /\ has_ids ex_a = true /\ (exists df, to_df ex_a = Some df) /\
+  exists c, add_all (empty_coll ["user_id"; "seq"]) [([1%Z; 1%Z], ex_a); ([1%Z; 1%Z], ex_b); ([2%Z; 1%Z], il_empty_unord)] = Some c /\
+            List.length (c_schema c) = 5.
+Proof.
+  split; [exact ex_a_wf|]. split; [reflexivity|]. split; [eexists; reflexivity|].
+  eexists. split; [vm_compute; reflexivity|reflexivity].
+Qed.
